@@ -7,7 +7,7 @@ use serde_json::json;
 use tera::{Context, ErrorKind, Tera};
 
 /// (fault source, token inside it that the span must touch)
-const RENDER_FAULTS: [(&str, &str); 26] = [
+const RENDER_FAULTS: [(&str, &str); 30] = [
     ("{{ nope_var }}", "nope_var"),
     ("{{ good.zz.deeper }}", "zz"),
     ("{{ 1 + \"a\" }}", "\"a\""),
@@ -34,6 +34,11 @@ const RENDER_FAULTS: [(&str, &str); 26] = [
     ("{% if good.b + nope_c %}{% endif %}", "nope_c"),
     ("{{ good.b ** \"s\" }}", "\"s\""),
     ("{{ [1][good] }}", "good"),
+    // filter chains: the value handed to the failing filter is what the error is about
+    ("{% set zz | round | upper %}abc{% endset %}", "round"),
+    ("{% filter round %}abc{% endfilter %}", "round"),
+    ("{{ \"abc\" | upper | round }}", "upper"),
+    ("{% set zz | truncate(length=\"x\") | upper %}abc{% endset %}", "truncate"),
 ];
 const SYNTAX_FAULTS: [(&str, &str); 16] = [
     ("{{ 1 + }}", "}}"),
